@@ -106,3 +106,28 @@ Print Assumptions c03_str_simp_const_shorter.
 Theorem c03_elim_var_occurs_check : ltac:(let t := type of rw_elim_var_sound in exact t).
 Proof. exact rw_elim_var_sound. Qed.
 Print Assumptions c03_elim_var_occurs_check.
+
+(* ONE relation for 28 mutators (Props/C03Union.v): the six structural ones, five of Model/SmtlibRw.v, nine of
+   Model/Rewrites.v, four of Model/ConstRw.v and four of Model/OracleRw.v, mixed freely at any positions of a term and with
+   any oracle values at every step, strictly decrease the triple (number of nodes, weighted number of characters, disorder of
+   the children's sizes) in the lexicographic order; hence no cycles, no no-ops, no infinite chain.  The mutators that do
+   not fit are each refuted by an Example there (they grow the term or keep the triple). *)
+From DD Require Import Props.C03Union.
+Theorem c03_union_members : ltac:(let t := type of c03u_members in exact t).
+Proof. exact c03u_members. Qed.
+Print Assumptions c03_union_members.
+Theorem c03_union_step_decreases : ltac:(let t := type of ustep_decreases in exact t).
+Proof. exact ustep_decreases. Qed.
+Print Assumptions c03_union_step_decreases.
+Theorem c03_no_cycles_union : ltac:(let t := type of no_cycles_union in exact t).
+Proof. exact no_cycles_union. Qed.
+Print Assumptions c03_no_cycles_union.
+Theorem c03_no_noop_union : ltac:(let t := type of no_noop_union in exact t).
+Proof. exact no_noop_union. Qed.
+Print Assumptions c03_no_noop_union.
+Theorem c03_union_wf : ltac:(let t := type of ustep_wf in exact t).
+Proof. exact ustep_wf. Qed.
+Print Assumptions c03_union_wf.
+Theorem c03_no_infinite_chain_union : ltac:(let t := type of no_infinite_chain_union in exact t).
+Proof. exact no_infinite_chain_union. Qed.
+Print Assumptions c03_no_infinite_chain_union.
